@@ -58,7 +58,20 @@ pub fn fault_run(cfg: &Cfg, steps: &[Step], plan: &str, base: &RunOpts, faulted_
     };
     let mut res: Check = Ok(());
     let mut surfaced = false;
+    // did the faulted operation allocate a block while planning (layout mirror)?
+    let mut faulted_op_allocated = false;
     for (i, s) in steps.iter().enumerate() {
+        if i == faulted_step {
+            if let Step::Do(Op::Batch { t, lens, .. }) = s {
+                let mut tm = run.model.topics[*t as usize].clone();
+                let before_rot = tm.rotations;
+                let fresh = !tm.has_writer;
+                for l in lens {
+                    tm.mirror_append(*l);
+                }
+                faulted_op_allocated = tm.rotations > before_rot || fresh;
+            }
+        }
         let before = run.out.features.contains("append_err") || run.out.features.contains("batch_err");
         if i == faulted_step {
             run.out.features.remove("append_err");
@@ -88,7 +101,31 @@ pub fn fault_run(cfg: &Cfg, steps: &[Step], plan: &str, base: &RunOpts, faulted_
             break;
         }
     }
-    if res.is_ok() {
+    // open finding C04-abandoned-block-id-drift: a rolled-back batch leaves the blocks it had
+    // allocated unwritten; recovery numbers blocks by what it finds on disk, so after a restart
+    // block ids can differ from the ones persisted cursors refer to. While it is open, a case
+    // with that pattern is judged in-process only.
+    let skip_restart = surfaced && faulted_op_allocated && run.opts.exclude.contains("restart-after-failed-batch-that-allocated");
+    if skip_restart {
+        *run.out.excluded.entry("restart-after-failed-batch-that-allocated".into()).or_insert(0) += 1;
+        if res.is_ok() {
+            res = run.drain(drain);
+        }
+        if res.is_ok() {
+            let nt = run.model.topics.len() as u32;
+            for t in 0..nt {
+                let seq = 1_000_000 + t as u64;
+                res = run.apply(&Step::Do(Op::Append { inst: 0, t, seq, len: 33 + t as u64 }));
+                if res.is_err() {
+                    break;
+                }
+                res = run.apply(&Step::Do(Op::ReadNext { inst: 0, t, ck: true }));
+                if res.is_err() {
+                    break;
+                }
+            }
+        }
+    } else if res.is_ok() {
         if variant_b {
             res = run.apply(&Step::ReopenFresh);
             if res.is_ok() {
@@ -161,6 +198,7 @@ pub fn fault_case(prop: &str, case: &Case, base: &RunOpts, max_points: usize) ->
     // the block-filling prefix of a file-roll history is setup, not a fault target
     let skip = match case.ops.first() {
         Some(AbsOp::Fill { n, .. }) => *n as usize,
+        Some(AbsOp::Touch { .. }) => 1,
         _ => 0,
     };
     for e in &cr.events {
@@ -248,6 +286,9 @@ pub fn fault_case(prop: &str, case: &Case, base: &RunOpts, max_points: usize) ->
                 rep.inconclusive = Some(h);
                 continue;
             }
+        }
+        for (k, n) in &obs.out.excluded {
+            *rep.excluded.entry(k.clone()).or_insert(0) += n;
         }
         rep.features.insert(format!("fault_at_{}", ev.site));
         if plan.starts_with("short@") {
@@ -364,7 +405,7 @@ pub fn c04(ctx: &Ctx) {
     // (ii) injected I/O faults
     let plans: Vec<(&str, SizeProfile, std::ops::Range<usize>, usize, usize)> = vec![
         ("fault-tiny", SizeProfile::Tiny, 3..22, if q { 64 } else { 1500 }, if q { 12 } else { 300 }),
-        ("fault-block", SizeProfile::Block, 3..12, if q { 24 } else { 600 }, if q { 8 } else { 300 }),
+        ("fault-block", SizeProfile::Block, 3..12, if q { 16 } else { 600 }, if q { 8 } else { 300 }),
     ];
     for (name, prof, nops, cases, pts) in plans {
         let prop = ctx.prop.clone();
@@ -391,10 +432,10 @@ pub fn c04(ctx: &Ctx) {
         let pts = if q { 8 } else { 40 };
         let s = Search {
             name: "fault-fileroll".to_string(),
-            strategy: Box::new(move || fileroll_case_strategy(Mix { batch: 30, max_batch: 3, ..c04_fault_mix() }, 3..9, 2, mode_strategy())),
+            strategy: Box::new(move || fileroll_case_strategy(Mix { batch: 30, max_batch: 3, ..c04_fault_mix() }, 2..8, 2, mode_strategy())),
             run: Box::new(move |case: &Case| fault_case(&prop, case, &base, pts)),
-            cases: if q { 8 } else { 160 },
-            workers: cores().min(8),
+            cases: if q { 12 } else { 400 },
+            workers: cores(),
             max_shrink_iters: 30,
             shrink_secs: 300,
         };
